@@ -49,7 +49,15 @@ def const_shape(max_turns):
     off = st.floats(min_value=-30, max_value=30, allow_nan=False)
     nz = off.filter(lambda v: abs(v) > 0.5)
     sweep = st.floats(min_value=0.05, max_value=2 * math.pi - 0.05)
-    return st.one_of(
+    # steep constant-radius helices: the rise is 10..400 times the planar travel
+    # (a length estimate that forgets Z undersamples exactly these)
+    steep = st.tuples(st.floats(min_value=0.5, max_value=2.0), ang,
+                      st.floats(min_value=0.05, max_value=1.0),
+                      st.floats(min_value=20, max_value=200), st.booleans()).map(
+        lambda t: {"shape": "helix", "r": t[0], "a0": t[1], "r1": t[0], "sweep": t[2],
+                   "turns": 1, "dz": -t[3] if t[4] else t[3], "zgiven": True, "full": False})
+    return hist.equally(
+        steep,
         st.fixed_dictionaries({"shape": st.just("arc"), "r": rad, "a0": ang, "sweep": sweep,
                                "dz": dz, "zgiven": st.booleans(), "full": st.sampled_from([False, False, True])}),
         st.fixed_dictionaries({"shape": st.just("arc_radius"), "dx": nz, "dy": off,
